@@ -225,6 +225,20 @@ def run(rep, ctx):
               ('<a href="https://www.example.gov/reports">R</a><a href="HTTPS://WWW.Example.GOV/reports">R</a>', '<a href="https://www.example.gov/reports">R</a>'),
               ('<a href="/x">A</a><a href="/y">B</a>', '<a href="/y">A</a><a href="/x">B</a>'),
               ('<a href="/p1">Pony time!</a><a href="/p2">Pony time!</a>', '<a href="/p2">Pony time!</a><a href="/d">Donkey time.</a>')]
+    # small-scope exhaustive: every page of at most 2 (quick) / 3 (thorough, sampled down to every other page) links over 3 texts
+    # (two differing in case only) x 3 targets (one in-page) against every other one
+    import itertools
+    atoms = ['<a href="%s">%s</a>' % (h, t) for t in ('Home', 'HOME', 'News') for h in ('/1', '/2', '#top')]
+    small = [''] + atoms + [x + y for x, y in itertools.product(atoms, atoms)]
+    if tier != 'quick':
+        small += [x + y + z for x, y, z in itertools.product(atoms[:6], atoms[:6], atoms[:6])][::2]
+    else:
+        small = small[::2]
+    scope = list(itertools.product(small, small))
+    if tier != 'quick':
+        scope = scope[::7] + list(itertools.product(small[:91], small[:91]))
+    rep.extra['small_scope_exhaustive_pairs'] = len(scope)
+    pairs += scope
     lines = ['links_diff %s %s' % (enc_anchors(a), enc_anchors(b)) for a, b in pairs]
     model = run_driver(lines) if ctx['model_available'] else [None] * len(pairs)
     n_obs = n_corr = 0
